@@ -166,3 +166,86 @@ func runReentrant(r *engine.Run) {
 	r.Bound("probe", "no probe | one position x {setTime(0), setTime(NaN), setUTCHours(7), setUTCMonth(5,1), setUTCFullYear(1999), throw}")
 	r.Bound("receivers", "2000-01-31T23:59:59.999Z, 0, invalid")
 }
+
+// reentrantctor: Date.UTC (15.9.4.3) and new Date(y, m, ...) (15.9.3.1) apply ToNumber to
+// every supplied argument (up to seven), in order, before composing: a NaN or
+// infinite earlier argument does not end the conversions; an eighth argument is
+// never converted; an exception from valueOf propagates after the earlier conversions.
+func runReentrantCtor(r *engine.Run) {
+	d := newDriver(r)
+	es5 := date.Variant{}
+	vals3 := []float64{5, math.NaN(), math.Inf(1)}
+	base := []float64{2000, 5, 15, 12, 30, 7, 9, 4}
+	model := func(stopAtNonFinite bool, vals []float64, ppos int) string {
+		var log strings.Builder
+		n := len(vals)
+		if n > 7 {
+			n = 7
+		}
+		for i := 0; i < n; i++ {
+			fmt.Fprintf(&log, "%d;", i)
+			if i == ppos {
+				return log.String() + "|throw:marker"
+			}
+			if stopAtNonFinite && (math.IsNaN(vals[i]) || math.IsInf(vals[i], 0)) {
+				return log.String() + "|NaN"
+			}
+		}
+		return log.String() + "|" + num(date.FromFields(es5, toArgs(vals[:n])))
+	}
+	for opi := 0; opi < 2; opi++ {
+		for k := 2; k <= 8; k++ {
+			// one or two positions take a value from {5, NaN, Infinity}; the others keep the base tuple
+			for p1 := 0; p1 < k; p1++ {
+				for v1 := range vals3 {
+					for p2 := p1; p2 < k; p2++ {
+						for v2 := range vals3 {
+							if p2 == p1 && v2 != v1 {
+								continue
+							}
+							for ppos := -1; ppos < k; ppos++ {
+								key := fmt.Sprintf("%d.%d.%d.%d.%d.%d.%d", opi, k, p1, v1, p2, v2, ppos)
+								if !mine(r, key) {
+									continue
+								}
+								vals := append([]float64(nil), base[:k]...)
+								vals[p1], vals[p2] = vals3[v1], vals3[v2]
+								exp := model(false, vals, ppos)
+								call := []interface{}{opi, k}
+								parts := make([]string, k)
+								for i := 0; i < 8; i++ {
+									if i < k {
+										call = append(call, vals[i])
+										parts[i] = fmt.Sprintf("A%d(%s)", i, num(vals[i]))
+										if i == ppos {
+											parts[i] = fmt.Sprintf("A%d{throw marker}", i)
+										}
+									} else {
+										call = append(call, 0.0)
+									}
+								}
+								call = append(call, ppos)
+								input := tupleOps[opi] + "(" + strings.Join(parts, ", ") + ")   [A<i>(x) = {valueOf: function(){ log(i); return x }}]"
+								r.Begin(key)
+								obs := d.call(func(m *machine) otto.Value { return m.reentc }, call...)
+								r.End()
+								r.Eval(true)
+								r.Outcome(obs)
+								if r.WantSample() && ppos > 1 && p1 == 0 && v1 == 1 {
+									r.Sample(input + " => " + obs)
+								}
+								if obs == exp {
+									continue
+								}
+								aux := altAux("U", exp, func(string) string { return model(true, vals, ppos) })
+								r.Mismatch(engine.Mismatch{Key: key, Input: input, Expected: exp, Observed: obs, Aux: aux})
+							}
+						}
+					}
+				}
+			}
+		}
+	}
+	r.Bound("operations", "Date.UTC and new Date with 2..8 arguments, every argument an object with a logging valueOf")
+	r.Bound("values", "base tuple with one or two positions from {5, NaN, Infinity}; no probe | one throwing position")
+}
